@@ -133,7 +133,7 @@ namespace Tcpcl
 theorem cfg_step (e : Ep) (ev : Ev) : (step e ev).1.cfg = e.cfg := by
   unfold step
   cases ev with
-  | pump n => simp only []; split <;> simp
+  | pump n => simp only []; split <;> (try split) <;> simp
   | advance ms => rfl
   | start =>
     simp only []
